@@ -8,10 +8,18 @@ truncated at EVERY byte offset 0..len and each truncated file is read with the r
                                 in order, with the written states (ids of all, full state of the last one; all states at
                                 record boundaries and every 64th offset), and then ends cleanly or raises
                                 FlowReadException; any other exception, a missing flow or an extra (partial) flow violates
-  stream_file_complete_after_hook   for files produced by stream saving (real Save addon, real file, optional '+' append
-                                onto an existing file): after EACH hook of the lifecycle schedule the bytes visible
-                                through a second file descriptor -- what survives a kill -9 -- are exactly the records of
-                                the flows completed so far (no partial record, none missing: detects a missing flush())
+  stream_file_complete_after_hook   stream saving through the real Save addon into real files.  Hook histories are the ones the
+                                proxy core produces (HTTP request->response, request->error, error WITHOUT a request hook when the
+                                client aborts its upload, websocket request->101 response->websocket_end, tcp/udp start->end|error,
+                                dns request->response|error; flows interleaved) crossed with a runtime history of the options:
+                                save_stream_file initially unset and switched on while flows are in flight, re-targeted to another
+                                path without switching off, switched off and on again (same or other file, overwrite or '+'
+                                append, also onto a pre-existing file), save_stream_filter set/changed/cleared.  After EVERY
+                                event every stream file is read through a second descriptor -- what survives a kill -9 -- and
+                                must hold exactly: every flow that finished while a stream was configured and matched the filter
+                                (own evaluation of the filter), in the file that was current at that moment, in order, with its
+                                final state; no partial record; the only other records allowed are unfinished copies of in-flight
+                                flows written when streaming is switched off
   explicit_save_file_complete   save.file (also with '+' append) leaves exactly the records of the saved flows
 
 Writers: the `save.file` command, stream saving through the Save addon's hooks, and a bare FlowWriter.
@@ -23,8 +31,13 @@ import io
 import os
 import shutil
 import tempfile
+import traceback
 
+from mitmproxy import dns
 from mitmproxy import exceptions
+from mitmproxy import http
+from mitmproxy import tcp
+from mitmproxy import udp
 from mitmproxy.addons import save
 from mitmproxy.io import FlowReader
 from mitmproxy.io import FlowWriter
@@ -44,14 +57,15 @@ ENGINE = "direct"
 TECHNIQUE = "exhaustive truncation of real writer output at every byte offset; second-descriptor observation after each stream-save hook"
 RULE = (
     "files: 1-5 random flows (http, websocket, tcp, udp, dns; generator vf/gen/flows.py, size 'small') written by save.file, by stream saving "
-    "(hook schedule with interleaved starts/completions, optionally appending to an existing file) or by FlowWriter; every byte offset of every file is "
+    "(proxy-like hook histories incl. error without request hook, interleaved flows, crossed with runtime changes of save_stream_file -- unset->set mid-flight, re-target, off/on, overwrite/append -- and of save_stream_filter) or by FlowWriter; every byte offset of every file is "
     "one case (crash point). Signature = (writer, kind of the record that is cut, where the cut falls: boundary / length prefix / colon / payload / "
     "before type tag, index of the cut record, outcome clean-end or FlowReadException). Non-trivial: offsets strictly inside a record (a partial record exists)"
 )
 ASSUMPTIONS = [
     "a crash leaves a prefix of the bytes handed to the OS (no torn or reordered writes below the file-descriptor level)",
     "what a second file descriptor reads right after a hook returns is what would survive killing the process at that moment",
-    "stream-save completion hooks: response/error for plain HTTP, websocket_end, tcp/udp end|error, dns response|error",
+    "stream-save completion hooks: response/error for plain HTTP, websocket_end, tcp/udp end|error, dns response|error; a flow is due in the stream file iff its completion hook fires while save_stream_file is set and it matches save_stream_filter at that moment",
+    "when streaming is switched off the addon may additionally write unfinished copies of in-flight flows (C39 decides which); C37 only requires that no finished flow is missing or damaged",
 ]
 LEVEL_TEXT = (
     "Fault enumeration: for every generated file all truncation offsets are enumerated exhaustively (no sampling of crash points) and every hook "
@@ -126,50 +140,214 @@ def classify_disk(on_disk, expected, partial):
 START = {"http": "request", "websocket": "request", "tcp": "tcp_start", "udp": "udp_start", "dns": "dns_request"}
 END = {"http": ["response", "error"], "websocket": ["websocket_end"], "tcp": ["tcp_end", "tcp_error"], "udp": ["udp_end", "udp_error"], "dns": ["dns_response", "dns_error"]}
 
+# save_stream_filter expressions with the harness's own reading of them (type / error / marker predicates only)
+FILTERS = [
+    ("~http", lambda f: isinstance(f, http.HTTPFlow)),
+    ("~websocket", lambda f: isinstance(f, http.HTTPFlow) and f.websocket is not None),
+    ("~tcp", lambda f: isinstance(f, tcp.TCPFlow)),
+    ("~udp", lambda f: isinstance(f, udp.UDPFlow)),
+    ("~dns", lambda f: isinstance(f, dns.DNSFlow)),
+    ("~e", lambda f: bool(f.error)),
+    ("!~e", lambda f: not f.error),
+    ("~marked", lambda f: bool(f.marked)),
+    ("~tcp | ~udp", lambda f: isinstance(f, (tcp.TCPFlow, udp.UDPFlow))),
+    ("!~http", lambda f: not isinstance(f, http.HTTPFlow)),
+    ("~http & !~websocket", lambda f: isinstance(f, http.HTTPFlow) and f.websocket is None),
+]
+
+
+def lifecycle(r, f):
+    """Save-addon hooks in the order the proxy core fires them for this flow: (start hooks..., end hook)."""
+    k = G.kind_of(f)
+    if k == "http":
+        x = r.random()
+        if x < 0.55:
+            return ["request", "response"]
+        if x < 0.8:
+            return ["request", "error"]  # server unreachable / connection lost after the request was read
+        return ["error"]  # client aborted while still sending the request: requestheaders -> error, no `request` hook
+    if k == "websocket":
+        return ["request", "response", "websocket_end"]  # the 101 response must not persist the flow yet
+    return [START[k], r.choice(END[k])]
+
+
+def match_items(items, recs, i=0, j=0, used=frozenset()):
+    """Do the records on disk (list of (id, state)) realise the model's items?  items: ("fin", state) -- exactly this record;
+    ("done", {id: state}) -- any subset, in any order, of unfinished copies of flows that were in flight when streaming was
+    switched off.  Returns None on success or (item index, record index) of the first mismatch of the best attempt."""
+    if i == len(items):
+        return None if j == len(recs) else (i, j)
+    kind, val = items[i]
+    if kind == "fin":
+        if j < len(recs) and T.same(recs[j][1], val):
+            return match_items(items, recs, i + 1, j + 1, frozenset())
+        return (i, j)
+    best = match_items(items, recs, i + 1, j, frozenset())
+    if best is None:
+        return None
+    if j < len(recs) and recs[j][0] in val and recs[j][0] not in used and T.same(recs[j][1], val[recs[j][0]]):
+        alt = match_items(items, recs, i, j + 1, used | {recs[j][0]})
+        if alt is None:
+            return None
+        best = max(best, alt, key=lambda t: t[1])
+    return best
+
+
+def check_model(ctx, path, items, when, history):
+    """What a second descriptor sees in `path` right now is exactly what the model says has been persisted there."""
+    ctx.count("stream_file_complete_after_hook")
+    try:
+        data = disk(path)
+    except FileNotFoundError:
+        data = b""
+    fr, stop = T.frames(data)
+    n_fin = sum(1 for k, _ in items if k == "fin")
+    wit = {"when": when, "file": os.path.basename(path), "history": history[-25:], "finished_flows_expected_in_file": n_fin, "complete_records_on_disk": len(fr)}
+    if stop != len(data):
+        ctx.violation("partial-record-on-disk", {**wit, "trailing_bytes": len(data) - stop})
+        return False
+    recs = []
+    for k, (s, e) in enumerate(fr):
+        try:
+            st = T.norm(T.decode(data, s, e)[0])
+            recs.append((st.get("id") if isinstance(st, dict) else None, st))
+        except T.RefError as ex:
+            ctx.violation("record-on-disk-malformed", {**wit, "record": k, "err": str(ex)})
+            return False
+    bad = match_items(items, recs)
+    if bad is not None:
+        i, j = bad
+        want = items[i][1].get("id") if i < len(items) and items[i][0] == "fin" else None
+        kind = "finished-flow-missing-from-stream-file" if i < len(items) and items[i][0] == "fin" and (j >= len(recs) or recs[j][0] != want) else "stream-file-differs-from-finished-flows"
+        ctx.violation(kind, {**wit, "model_item": i, "record": j, "expected_flow_id": want, "found_flow_id": recs[j][0] if j < len(recs) else None,
+                             "diff": T.diff(items[i][1], recs[j][1]) if want is not None and j < len(recs) and recs[j][0] == want else None})
+        return False
+    return True
+
 
 def write_stream(ctx, env, flows):
-    """Stream-save the flows through the Save addon's hooks, checking the disk after each hook. -> (path, states in file order)"""
+    """Stream-save the flows through the Save addon: hook histories as the proxy core produces them, crossed with a runtime
+    history of the save_stream_file / save_stream_filter options.  After EVERY event all stream files are compared with the
+    model: every flow that finished while a stream was configured and matched the filter is in the file that was current
+    at that moment, in order, complete.  -> (path of the largest file, its record states)"""
     r = ctx.rng
-    path = env.path()
-    expected = []
-    spec = path
-    if r.random() < 0.3:
-        pre = G.gen_flows(r, 1, size="small")
-        with open(path, "wb") as fo:
-            FlowWriter(fo).add(pre[0])
-        expected.append(snapshot(pre[0]))
-        spec = "+" + path
-    sa = env.sa
-    env.tctx.configure(sa, save_stream_file=spec)
-    check_disk(ctx, "stream_file_complete_after_hook", path, expected, "after configure")
-    # schedule: starts and completions interleaved; a flow completes only after its start
-    todo = [("start", f) for f in flows]
-    r.shuffle(todo)
-    pending = []
-    hooks = []
-    while todo or pending:
-        if todo and (not pending or r.random() < 0.5):
-            _, f = todo.pop()
-            k = G.kind_of(f)
-            getattr(sa, START[k])(f)
-            hooks.append(START[k])
-            if k == "websocket":
-                sa.response(f)  # 101: must not be written yet
-                hooks.append("response(ws)")
-            pending.append(f)
-            check_disk(ctx, "stream_file_complete_after_hook", path, expected, f"after {hooks[-1]} #{len(hooks)}")
+    sa, tctx = env.sa, env.tctx
+    paths = [env.path() for _ in range(3)]
+    files: dict = {}  # path -> model items
+    cur = None  # path currently streamed to
+    flt = None  # (expr, predicate)
+    history: list = []
+    inflight: list = []
+
+    def set_stream(path, append):
+        nonlocal cur
+        if append:
+            files.setdefault(path, [])
         else:
-            f = pending.pop(r.randrange(len(pending)))
-            k = G.kind_of(f)
-            h = r.choice(END[k])
-            expected.append(snapshot(f))
-            getattr(sa, h)(f)
-            hooks.append(h)
-            check_disk(ctx, "stream_file_complete_after_hook", path, expected, f"after {h} #{len(hooks)}")
-    ctx.seen("hook_sequences", ",".join(hooks))
-    env.tctx.configure(sa, save_stream_file=None)
-    check_disk(ctx, "stream_file_complete_after_hook", path, expected, "after stream closed")
-    return path, expected
+            files[path] = []  # "wb": an existing file is truncated
+        history.append(f"save_stream_file={'+' if append else ''}{os.path.basename(path)}")
+        tctx.configure(sa, save_stream_file=("+" if append else "") + path)
+        cur = path
+
+    def unset_stream():
+        nonlocal cur
+        if cur is not None:
+            files[cur].append(("done", {f.id: snapshot(f) for f in inflight}))
+        history.append("save_stream_file=None")
+        tctx.configure(sa, save_stream_file=None)
+        cur = None
+
+    def check_all(when):
+        for p, items in files.items():
+            if not check_model(ctx, p, items, when, history):
+                return False
+        return True
+
+    # initial option state
+    x = r.random()
+    if x < 0.15:
+        pre = G.gen_flows(r, 1, size="small")
+        with open(paths[0], "wb") as fo:
+            FlowWriter(fo).add(pre[0])
+        files[paths[0]] = [("fin", snapshot(pre[0]))]
+        set_stream(paths[0], True)
+    elif x < 0.65:
+        set_stream(paths[0], False)
+    # else: streaming is switched on later, while flows are in flight
+    plain = r.random() < 0.35  # no option changes after the initial state
+    ok = check_all("initial configuration")
+
+    todo = [(f, lifecycle(r, f)) for f in flows]
+    r.shuffle(todo)
+    running: list = []  # [flow, remaining hooks]
+    n_opt = 0
+    while ok and (todo or running):
+        x = r.random()
+        if not plain and n_opt < 4 and x < 0.22:
+            n_opt += 1
+            y = r.random()
+            if cur is None:
+                p = r.choice(paths)
+                set_stream(p, append=(p in files and r.random() < 0.6))
+            elif y < 0.35:
+                unset_stream()
+            elif y < 0.6:
+                p = r.choice([q for q in paths if q != cur])
+                set_stream(p, append=(p in files and r.random() < 0.6))  # re-target without switching off
+            else:
+                flt = None if (flt is not None and r.random() < 0.4) else r.choice(FILTERS)
+                history.append(f"save_stream_filter={flt[0] if flt else None}")
+                tctx.configure(sa, save_stream_filter=flt[0] if flt else None)
+            ok = check_all(history[-1])
+            continue
+        if todo and (not running or x < 0.6):
+            f, hooks = todo.pop()
+            running.append([f, hooks])
+        ent = r.choice(running)
+        f, hooks = ent
+        h = hooks.pop(0)
+        last = not hooks
+        if last:
+            running.remove(ent)
+            # the flow reaches its final state
+            if h.endswith("error") and not f.error:
+                f.error = G.gen_error(r)
+            if h == "response" and f.response is None:
+                f.response = G.gen_response(r, True)
+            f.comment = f"finished:{h}"
+            if f in inflight:
+                inflight.remove(f)
+            if cur is not None and (flt is None or flt[1](f)):
+                files[cur].append(("fin", snapshot(f)))
+        elif f not in inflight:
+            inflight.append(f)
+        history.append(f"{h}({G.kind_of(f)}#{flows.index(f)})")
+        getattr(sa, h)(f)
+        ok = check_all(history[-1])
+    if ok and cur is not None and r.random() < 0.7:
+        unset_stream()
+        check_all("stream switched off at the end")
+    elif cur is not None:
+        tctx.configure(sa, save_stream_file=None)  # leave the addon idle for the next case (not checked: covered above)
+    if flt is not None:
+        tctx.configure(sa, save_stream_filter=None)
+    ctx.seen("hook_sequences", ",".join(h.split("(")[0] for h in history))
+    ctx.seen("option_histories", ",".join(h.split("=")[0] + ("=None" if h.endswith("None") else "") for h in history if h.startswith("save_")) or "-")
+    # hand the largest file to the truncation sweep
+    best, states = paths[0], []
+    for p in files:
+        try:
+            recs = [T.norm(x) for x in T.decode_all(disk(p))]
+        except (T.RefError, FileNotFoundError):
+            continue
+        if len(recs) >= len(states):
+            best, states = p, recs
+    for p in paths:
+        if p != best and os.path.exists(p):
+            os.unlink(p)
+    if not os.path.exists(best):
+        open(best, "wb").close()
+    return best, states
 
 
 def write_command(ctx, env, flows):
@@ -283,33 +461,49 @@ def sweep(ctx, env, writer, path, states):
     ctx.seen("files", (writer, tuple(kinds)))
 
 
+def one_case(ctx, env, i, state):
+    r = ctx.rng
+    hooks_only = i % 2 == 1  # a longer stream-save schedule without the truncation sweep
+    n = r.choice([3, 5, 8]) if hooks_only else r.choice([1, 1, 1, 2, 2, 3, 5] if ctx.tier != "quick" else [1, 1, 1, 2, 2, 3])
+    # rotate the writers and make sure every flow kind appears early in each worker
+    kinds = [G.KINDS[(i + j + ctx.worker) % len(G.KINDS)] if j == 0 else r.choice(G.KINDS) for j in range(n)]
+    flows = [G.gen_flow(r, k, size="small") for k in kinds]
+    writer = "stream" if hooks_only else ("stream", "command", "plain")[(i // 2) % 3]
+    path, states = {"stream": write_stream, "command": write_command, "plain": write_plain}[writer](ctx, env, flows)
+    size = os.path.getsize(path)
+    stop = False
+    if hooks_only:
+        ctx.count("hook_only_schedules")
+    elif size == 0:
+        ctx.count("files_empty")
+    elif size > state["limit"]:
+        ctx.count("files_skipped_too_large")
+    elif ctx.only_case is None and ctx.time_left() < size * state["per_offset"] * 1.3:
+        ctx.count("files_skipped_out_of_time")
+        stop = True
+    else:
+        t0 = ctx.time_left()
+        sweep(ctx, env, writer, path, states)
+        state["per_offset"] = 0.5 * state["per_offset"] + 0.5 * max((t0 - ctx.time_left()) / (size + 1), 1e-5)
+    os.unlink(path)
+    return stop
+
+
 def run(ctx):
     env = Env()
-    per_offset = 0.0006  # running estimate of seconds per crash point, used to stop before a file that would overrun the budget
-    limit = 9_000 if ctx.tier == "quick" else MAX_FILE
+    # per_offset: running estimate of seconds per crash point, used to stop before a file that would overrun the budget
+    state = {"per_offset": 0.0006, "limit": 9_000 if ctx.tier == "quick" else MAX_FILE}
     try:
         for i in ctx.cases():
-            r = ctx.rng
-            hooks_only = i % 4 == 3  # a longer stream-save schedule without the truncation sweep
-            n = r.choice([3, 5, 8]) if hooks_only else r.choice([1, 1, 1, 2, 2, 3, 5] if ctx.tier != "quick" else [1, 1, 1, 2, 2, 3])
-            # rotate the writers and make sure every flow kind appears early in each worker
-            kinds = [G.KINDS[(i + j + ctx.worker) % len(G.KINDS)] if j == 0 else r.choice(G.KINDS) for j in range(n)]
-            flows = [G.gen_flow(r, k, size="small") for k in kinds]
-            writer = "stream" if hooks_only else ("stream", "command", "plain")[i % 3]
-            path, states = {"stream": write_stream, "command": write_command, "plain": write_plain}[writer](ctx, env, flows)
-            size = os.path.getsize(path)
-            if hooks_only:
-                ctx.count("hook_only_schedules")
-            elif size > limit:
-                ctx.count("files_skipped_too_large")
-            elif ctx.only_case is None and ctx.time_left() < size * per_offset * 1.3:
-                ctx.count("files_skipped_out_of_time")
-                os.unlink(path)
-                break
-            else:
-                t0 = ctx.time_left()
-                sweep(ctx, env, writer, path, states)
-                per_offset = 0.5 * per_offset + 0.5 * max((t0 - ctx.time_left()) / (size + 1), 1e-5)
-            os.unlink(path)
+            try:
+                if one_case(ctx, env, i, state):
+                    break
+            except Exception as e:  # noqa  -- real code raised inside a schedule: evidence, not a harness error
+                ctx.violation(f"unexpected-exception:{type(e).__name__}@{exc_site(e)}", {"case": i, "exc": short(repr(e)), "tb": traceback.format_exc()[-1200:]})
+                try:
+                    env.close()
+                except Exception:  # noqa
+                    pass
+                env = Env()
     finally:
         env.close()
